@@ -36,6 +36,7 @@ type sig struct {
 
 type step struct {
 	Kind     string          `json:"kind"`
+	Dt       string          `json:"dt"`
 	Op       string          `json:"op"`
 	Claimed  string          `json:"claimed"`
 	Ff       string          `json:"ff"`
@@ -93,7 +94,28 @@ func (w *world) from(claimed, ff string) string {
 }
 
 // txJSON renders a transfer transaction; variant selects the message ("this" / "other" differ in the nonce)
-func txJSON(kind, from, msg string, salt int, sigB64 *string, id []byte) []byte {
+// dataOf returns the recipient, value and the minimal well-formed dataType/data fields that the type's own checks in
+// Verify() demand (call: a method; deploy: content, no value; deposit, patch: data present)
+func dataOf(dt string, salt int) (to, value, extra string) {
+	to, value = fmt.Sprintf("cx%040x", 0xc0de+salt), fmt.Sprintf("0x%x", 1000+salt)
+	switch dt {
+	case "message":
+		return fmt.Sprintf("hx%040x", 0xbeef+salt), value, `,"dataType":"message","data":"0x48656c6c6f"`
+	case "call":
+		return to, value, `,"dataType":"call","data":{"method":"transfer","params":{"_to":"hx0000000000000000000000000000000000000001","_value":"0x1"}}`
+	case "deploy":
+		return "cx0000000000000000000000000000000000000000", "0x0", `,"dataType":"deploy","data":{"contentType":"application/zip","content":"0x504b0304","params":{"name":"x"}}`
+	case "deposit_add":
+		return to, value, `,"dataType":"deposit","data":{"action":"add"}`
+	case "deposit_withdraw":
+		return to, "0x0", `,"dataType":"deposit","data":{"action":"withdraw","id":"0x6b8b2a31f8f8e0c1d3f5a7b9c1d3e5f7a9b1c3d5e7f9a1b3c5d7e9f1a3b5c7d9"}`
+	case "patch":
+		return "cx0000000000000000000000000000000000000000", "0x0", `,"dataType":"patch","data":{"type":"skip_txs","data":"AQID"}`
+	}
+	return fmt.Sprintf("hx%040x", 0xbeef+salt), value, ""
+}
+
+func txJSON(kind, dt, from, msg string, salt int, sigB64 *string, id []byte) []byte {
 	nonce := 1
 	if msg != "this" {
 		nonce = 2
@@ -109,8 +131,9 @@ func txJSON(kind, from, msg string, salt int, sigB64 *string, id []byte) []byte 
 		}
 		return []byte(s + "}")
 	}
-	s := fmt.Sprintf(`{"version":"0x3","from":"%s","to":"hx%040x","value":"0x%x","stepLimit":"0x186a0","timestamp":"0x%x","nid":"0x1","nonce":"0x%x"`,
-		from, 0xbeef+salt, 1000+salt, 1600000000000000+salt, nonce)
+	to, value, extra := dataOf(dt, salt)
+	s := fmt.Sprintf(`{"version":"0x3","from":"%s","to":"%s","value":"%s","stepLimit":"0x186a0","timestamp":"0x%x","nid":"0x1","nonce":"0x%x"%s`,
+		from, to, value, 1600000000000000+salt, nonce, extra)
 	if sigB64 != nil {
 		s += fmt.Sprintf(`,"signature":"%s"`, *sigB64)
 	}
@@ -194,11 +217,11 @@ func (w *world) run(s step, salt int) *fail {
 		from := w.from(s.Claimed, s.Ff)
 		// the id of THIS transaction and the message the signer actually signed (the id of the same transaction
 		// with the other nonce when sig.m differs from m)
-		thisID, err := idOf(txJSON(s.Kind, from, s.M, salt, nil, nil))
+		thisID, err := idOf(txJSON(s.Kind, s.Dt, from, s.M, salt, nil, nil))
 		if err != nil {
 			return &fail{"txauth:driver", "cannot parse the unsigned transaction: " + err.Error(), true}
 		}
-		signedID, err := idOf(txJSON(s.Kind, from, s.Sig.M, salt, nil, nil))
+		signedID, err := idOf(txJSON(s.Kind, s.Dt, from, s.Sig.M, salt, nil, nil))
 		if err != nil {
 			return &fail{"txauth:driver", err.Error(), true}
 		}
@@ -210,7 +233,7 @@ func (w *world) run(s step, salt int) *fail {
 			return &fail{"txauth:driver", "cannot sign: " + err.Error(), true}
 		}
 		b64 := base64.StdEncoding.EncodeToString(w.wire(rsv, s.Sig))
-		js := txJSON(s.Kind, from, s.M, salt, &b64, thisID)
+		js := txJSON(s.Kind, s.Dt, from, s.M, salt, &b64, thisID)
 		got := "accept"
 		tx, err := transaction.NewTransactionFromJSON(js)
 		if err != nil {
@@ -231,10 +254,10 @@ func (w *world) run(s step, salt int) *fail {
 		if got == want {
 			return nil
 		}
-		descr := fmt.Sprintf(s.Kind+" transaction: claimed sender %s (from form %s), signature by %s over the id of %q (tx is %q), V %s, R %s, S %s, %d bytes",
+		descr := fmt.Sprintf(s.Kind+" transaction, data type "+s.Dt+": claimed sender %s (from form %s), signature by %s over the id of %q (tx is %q), V %s, R %s, S %s, %d bytes",
 			s.Claimed, s.Ff, s.Sig.K, s.Sig.M, s.M, s.Sig.V, s.Sig.R, s.Sig.S, s.Sig.Len)
 		if got == "accept" {
-			return &fail{"txauth:accepted:" + classOf(s), "Verify() ACCEPTS a transaction it must reject: " + descr + "\n" + string(js), false}
+			return &fail{"txauth:accepted:" + s.Dt + ":" + classOf(s), "Verify() ACCEPTS a transaction it must reject: " + descr + "\n" + string(js), false}
 		}
 		if want == "accept" && s.Definite {
 			return &fail{"txauth:rejected:genuine", "Verify() rejects (" + got + ") a transaction signed by its sender over its id: " + descr, false}
@@ -376,7 +399,7 @@ func TestReplay(t *testing.T) {
 		var f *fail
 		sigs := ""
 		for _, s := range steps {
-			sigs += fmt.Sprintf("%s:%s:%s:%s:%s:%+v:%s:%d;", s.Kind, s.Op, s.Claimed, s.Ff, s.M, s.Sig, s.K, s.Hlen)
+			sigs += fmt.Sprintf("%s:%s:%s:%s:%s:%s:%+v:%s:%d;", s.Kind, s.Dt, s.Op, s.Claimed, s.Ff, s.M, s.Sig, s.K, s.Hlen)
 			func() {
 				defer func() {
 					if r := recover(); r != nil {
